@@ -31,7 +31,7 @@ func (o Obj) String() string {
 	switch o.K {
 	case "nil", "t":
 		return o.K
-	case "list", "vec":
+	case "list", "vec", "arr":
 		parts := make([]string, len(o.E))
 		for i, e := range o.E {
 			parts[i] = e.String()
@@ -39,6 +39,10 @@ func (o Obj) String() string {
 		open := "("
 		if o.K == "vec" {
 			open = "#("
+		}
+		if o.K == "arr" {
+			open = "#2A(("
+			return open + strings.Join(parts, " ") + "))"
 		}
 		return open + strings.Join(parts, " ") + ")"
 	case "str":
@@ -132,6 +136,12 @@ func build(scope *slip.Scope, o Obj) slip.Object {
 			l[i] = build(scope, e)
 		}
 		return slip.NewVector(len(l), slip.TrueSymbol, nil, l, false)
+	case "arr": // rank 2, dimensions 1 x len(E)
+		row := make(slip.List, len(o.E))
+		for i, e := range o.E {
+			row[i] = build(scope, e)
+		}
+		return slip.NewArray([]int{1, len(row)}, slip.TrueSymbol, nil, slip.List{row}, false)
 	case "nil":
 		return nil
 	case "t":
@@ -162,10 +172,13 @@ func ckey(o Obj) string {
 		return "y:" + strings.ToLower(o.S)
 	case o.K == "nil" || (o.K == "list" && len(o.E) == 0):
 		return "()"
-	case o.K == "list" || o.K == "vec":
+	case o.K == "list" || o.K == "vec" || o.K == "arr":
 		var b strings.Builder
 		if o.K == "vec" {
 			b.WriteByte('#')
+		}
+		if o.K == "arr" {
+			b.WriteString("#2A")
 		}
 		b.WriteByte('(')
 		for _, e := range o.E {
@@ -181,7 +194,7 @@ func ckey(o Obj) string {
 // pointerish: the Go representation is a pointer or a slice (bignum, ratio, list, vector).
 func pointerish(o Obj) bool {
 	switch o.K {
-	case "rat", "vec":
+	case "rat", "vec", "arr":
 		return true
 	case "list":
 		return len(o.E) > 0
@@ -193,7 +206,7 @@ func pointerish(o Obj) bool {
 }
 
 func leaves(o Obj, out []Obj) []Obj {
-	if o.K == "list" || o.K == "vec" {
+	if o.K == "list" || o.K == "vec" || o.K == "arr" {
 		for _, e := range o.E {
 			out = leaves(e, out)
 		}
@@ -259,6 +272,7 @@ func Sym(s string) Obj      { return Obj{K: "sym", S: s} }
 func Chr(s string) Obj      { return Obj{K: "chr", S: s} }
 func L(e ...Obj) Obj        { return Obj{K: "list", E: e} }
 func V(e ...Obj) Obj        { return Obj{K: "vec", E: e} }
+func A(e ...Obj) Obj        { return Obj{K: "arr", E: e} }
 func Src(s string) Obj      { return Obj{K: "src", S: s} }
 func (o Obj) eq(p Obj) bool { return o.String() == p.String() && o.K == p.K }
 
@@ -299,6 +313,11 @@ var universe = []Obj{
 	// vectors
 	V(I("1"), I("2")), V(D("1"), I("2")), V(Str("a")), V(Str("A")), V(Chr("a")), V(Chr("A")), V(),
 	V(I(two64)), V(R("1/2")), V(R("1/3")), V(D("0.5")), V(L(I("1"), I("2"))),
+	// lossy rational/float pairs inside vectors, lists and rank-2 arrays (elements are compared through Object.Equal)
+	V(D("0.3333333333333333")), V(F("0.33333334")), L(D("0.3333333333333333")), L(F("0.33333334")),
+	V(R("1/10")), V(D("0.1")), V(F("0.1")), V(I(two53p)), V(D("9007199254740992")), V(I("16777217")), V(F("16777216")),
+	A(R("1/3")), A(D("0.3333333333333333")), A(F("0.33333334")), A(R("1/2")), A(D("0.5")), A(I("1")), A(D("1")), A(Str("a")), A(Str("A")),
+	A(I(two53p)), A(D("9007199254740992")), V(V(R("1/3"))), V(V(D("0.3333333333333333"))),
 	// complex numbers, with a zero imaginary part (equal to a real) and without
 	Src("#C(1 0)"), Src("#C(2.5 0)"), Src("#C(1 2)"), Src("#C(0 0)"), D("2.5"), R("5/2"),
 	// nil, the empty list, t
@@ -357,8 +376,11 @@ func genObj(rt *rapid.T, label string, depth int) Obj {
 	}
 	n := rapid.IntRange(0, 3).Draw(rt, label+"-n")
 	o := Obj{K: "list"}
-	if rapid.IntRange(0, 2).Draw(rt, label+"-vec") == 0 {
+	switch rapid.IntRange(0, 5).Draw(rt, label+"-vec") {
+	case 0, 1:
 		o.K = "vec"
+	case 2:
+		o.K = "arr"
 	}
 	for i := 0; i < n; i++ {
 		o.E = append(o.E, genObj(rt, label+"e", depth-1))
@@ -426,7 +448,7 @@ func variant(rt *rapid.T, label string, o Obj) Obj {
 			return Obj{K: o.K, S: flipCase(o.S)}
 		}
 		return o
-	case o.K == "list" || o.K == "vec":
+	case o.K == "list" || o.K == "vec" || o.K == "arr":
 		c := Obj{K: o.K}
 		for _, e := range o.E {
 			if rapid.Bool().Draw(rt, label+"-sub") {
